@@ -32,6 +32,9 @@ ASSUMPTIONS = [
     "the state an object is left in after update raised is not modelled",
 ]
 TRUSTED = [
+    "translator harness/translate/pystream.py (Python subset -> Lean, typing table of the attributes, generator = cursor into the captured "
+    "draw streams, lazily initialised attributes = initial object): validated on every run by executing the translated model bit-exactly "
+    "against the real classes; the equality translated model = hand-written model is proved in Lean for all inputs (Lemmas/StreamGen.lean)",
     "np.quantile is an oracle of the BIQF model (captured per call); BIQF has no bound in C04",
     "managers driven through StreamDensityBasedAL / CognitiveDualQueryStrategy judge every instance of a chunk against the un-advanced manager state; that protocol is outside C04 (the managers' own API and the two baselines are in scope, as the anchors list)",
 ]
